@@ -40,7 +40,13 @@ class Check(PropertyCheck):
         """random diagrams, shapes that leave a remainder when recognised, bundled files — and, for a third of them, the
         same drawing again at other offsets (state keyed by shape rather than by position would show there)"""
         base = [gen.random_diagram(self.rng, 26, 10) for _ in range(n * 2 // 3)]
-        base += [gen.attached_shape(self.rng) for _ in range(n - len(base))]
+        base += [gen.attached_shape(self.rng) for _ in range(max(0, n - len(base) - n // 10))]
+        # shapes carrying several tags, nested shapes (unordered containers in the class / nesting code would show)
+        for _ in range(n // 10):
+            tags = ["{%s}" % ",".join(self.rng.choice(["red", "big", "dotted", "a", "b1", "w"]) for _ in range(self.rng.range(2, 4)))]
+            if self.rng.chance(1, 2):
+                tags = ["{red}", "{big} x", "{w}"][: self.rng.range(2, 3)]
+            base.append(gen.nested_boxes([tags] if self.rng.chance(1, 2) else [["lbl"], tags]))
         ts = []
         for t in base:
             ts.append(t)
